@@ -18,6 +18,9 @@
 (*   uninterrupted search of the same case (the search is deterministic    *)
 (*   up to the interruption, so anything else was computed from an         *)
 (*   unfinished part of the tree or would not have been written).          *)
+(* Mode "STEP": a dumped tree followed by the `down` / `up` events of the real search (every child    *)
+(*   search): each returned value must be sound for its window - exact inside the window, a true bound    *)
+(*   outside it - with respect to LookVal / Quiesce of the node searched.                                *)
 (* Mode "C16": results of repeated searches: (best, score, nodes) must be  *)
 (*   a function of (case, depth).                                          *)
 (***************************************************************************)
@@ -111,6 +114,27 @@ C16Bad == {i \in 1..N : Rec[i].ev = "result" /\
                                   /\ Rec[j].depth = Rec[i].depth /\ Res(Rec[j]) # Res(Rec[i]))}
 
 -----------------------------------------------------------------------------
+(* STEP: node-level soundness of the alpha-beta contract.  A child searched with window (a, b) and *)
+(* remaining depth d returns r (child's point of view):  a < r < b => r is the exact value;        *)
+(* r >= b => the exact value is >= b;  r <= a => the exact value is <= a.                           *)
+KidByMove(h, n, mv) ==
+  LET nd == Node(h, n)
+      js == {j \in 1..Len(nd.kids) : nd.kids[j][3] = mv} IN
+  IF n = 0 \/ js = {} THEN 0 ELSE nd.kids[CHOOSE j \in js : TRUE][1]
+ChildWindow(r) ==      \* the window the child was given, from the caller's alpha/beta and the kind of call
+  IF r.kind = "null" THEN <<Neg(r.alpha) - 1, Neg(r.alpha)>> ELSE <<Neg(r.beta), Neg(r.alpha)>>
+StepFails(h, n, r) ==
+  LET win == ChildWindow(r)
+      a == win[1]  b == win[2]
+      ret == Neg(r.score)
+      lv == IF r.kind = "q" THEN Quiesce(h, n) ELSE LookVal(h, n, r.depth, r.ply) IN
+  IF a >= b THEN {}        \* degenerate window (saturated mate bounds): the contract says nothing
+  ELSE
+  (IF ret >= b /\ ~(lv >= b) THEN {"fail-high-but-value-below-beta"} ELSE {})
+  \cup (IF ret <= a /\ ~(lv <= a) THEN {"fail-low-but-value-above-alpha"} ELSE {})
+  \cup (IF a < ret /\ ret < b /\ lv # ret THEN {"inside-window-but-not-exact"} ELSE {})
+
+-----------------------------------------------------------------------------
 (* ORD: the assumption Search.tla makes about the move-ordering iterator: it yields every move *)
 (* of the list it was given exactly once (then "any order" in the model covers it).            *)
 SeqSet(q) == {q[i] : i \in 1..Len(q)}
@@ -124,8 +148,8 @@ OrdCapsFirst(r) == \A i, j \in 1..Len(r.out) : (i < j /\ r.out[i] # r.tt /\ r.ca
 
 -----------------------------------------------------------------------------
 (* Stateless modes are evaluated in the initial state and reported by PrintT. *)
-VARIABLES l, cur, aborted, widx, ref, refOf, judged, rejected
-svars == <<l, cur, aborted, widx, ref, refOf, judged, rejected>>
+VARIABLES l, cur, aborted, widx, ref, refOf, judged, rejected, stk, hd
+svars == <<l, cur, aborted, widx, ref, refOf, judged, rejected, stk, hd>>
 
 FirstOf(S) == CHOOSE i \in S : \A j \in S : i <= j
 Stateless ==
@@ -153,7 +177,7 @@ WriteOf(r) == <<r.key, r.score, r.depth, r.bound, r.best>>
 
 Reject(what) ==
   /\ PrintT(<<"REJECT", l, Rec[l].ev, what, 0, 0>>)
-  /\ rejected' = TRUE /\ UNCHANGED <<l, cur, aborted, widx, ref, refOf, judged>>
+  /\ rejected' = TRUE /\ UNCHANGED <<l, cur, aborted, widx, ref, refOf, judged, stk, hd>>
 
 TSearch ==
   /\ Rec[l].ev = "search"
@@ -161,7 +185,7 @@ TSearch ==
      ELSE /\ cur' = Rec[l] /\ aborted' = FALSE /\ widx' = 0
           /\ ref' = IF Rec[l].group = refOf THEN ref ELSE <<>>      \* a new group starts with its uninterrupted run
           /\ refOf' = Rec[l].group
-          /\ l' = l + 1 /\ UNCHANGED <<judged, rejected>>
+          /\ l' = l + 1 /\ UNCHANGED <<judged, rejected, stk, hd>>
 
 Uninterrupted == cur.budget = -1 /\ cur.movetime = -1 /\ cur.stop_us = -1 /\ cur.clock = -1
 
@@ -175,32 +199,58 @@ TWrite ==
      ELSE /\ widx' = widx + 1
           /\ ref' = IF Uninterrupted THEN Append(ref, WriteOf(r)) ELSE ref
           /\ judged' = judged + 1
-          /\ l' = l + 1 /\ UNCHANGED <<cur, aborted, refOf, rejected>>
+          /\ l' = l + 1 /\ UNCHANGED <<cur, aborted, refOf, rejected, stk, hd>>
 
 TAbort ==
   /\ Rec[l].ev = "abort"
   /\ IF Uninterrupted THEN Reject({"abort-in-uninterrupted-search"})
      ELSE IF cur.budget # -1 /\ cur.movetime = -1 /\ cur.stop_us = -1 /\ cur.clock = -1 /\ Rec[l].nodes < cur.budget
      THEN Reject({"abort-before-budget"})
-     ELSE /\ aborted' = TRUE /\ l' = l + 1 /\ UNCHANGED <<cur, widx, ref, refOf, judged, rejected>>
+     ELSE /\ aborted' = TRUE /\ l' = l + 1 /\ UNCHANGED <<cur, widx, ref, refOf, judged, rejected, stk, hd>>
 
 TEnd ==
   /\ Rec[l].ev = "end"
-  /\ l' = l + 1 /\ UNCHANGED <<cur, aborted, widx, ref, refOf, judged, rejected>>
+  /\ l' = l + 1 /\ UNCHANGED <<cur, aborted, widx, ref, refOf, judged, rejected, stk, hd>>
+
+\* ---- STEP mode: tree header, node lines (skipped), down / up events
+STree ==
+  /\ Rec[l].ev = "tree"
+  /\ IF Rec[l].panicked THEN Reject({"panicked"})
+     ELSE /\ hd' = l /\ stk' = <<1>> /\ l' = l + Rec[l].n + 1        \* jump over the node lines; the root is node 1
+          /\ UNCHANGED <<cur, aborted, widx, ref, refOf, judged, rejected>>
+SDown ==
+  /\ Rec[l].ev = "down"
+  /\ LET p == Rec[l].ply                                           \* the child entered is at ply p: its parent is stk[p]
+         par == IF p <= Len(stk) THEN stk[p] ELSE 0 IN
+     stk' = Append(SubSeq(stk, 1, IF p <= Len(stk) THEN p ELSE Len(stk)), KidByMove(hd, par, Rec[l].mv))
+  /\ l' = l + 1 /\ UNCHANGED <<cur, aborted, widx, ref, refOf, judged, rejected, hd>>
+SUp ==
+  /\ Rec[l].ev = "up"
+  /\ LET r == Rec[l]
+         n == IF r.ply + 1 <= Len(stk) THEN stk[r.ply + 1] ELSE 0 IN
+     IF n = 0 THEN /\ l' = l + 1 /\ UNCHANGED <<cur, aborted, widx, ref, refOf, judged, rejected, stk, hd>>   \* node not in the dump: not judged
+     ELSE LET f == StepFails(hd, n, r) IN
+          IF f # {} THEN Reject(f)
+          ELSE /\ judged' = judged + 1 /\ l' = l + 1
+               /\ UNCHANGED <<cur, aborted, widx, ref, refOf, rejected, stk, hd>>
+SEnd ==
+  /\ Rec[l].ev = "endsteps"
+  /\ l' = l + 1 /\ UNCHANGED <<cur, aborted, widx, ref, refOf, judged, rejected, stk, hd>>
 
 TDone ==
   /\ l = N + 1
   /\ PrintT(<<"ACCEPT", N, judged>>)
-  /\ l' = l + 1 /\ UNCHANGED <<cur, aborted, widx, ref, refOf, judged, rejected>>
+  /\ l' = l + 1 /\ UNCHANGED <<cur, aborted, widx, ref, refOf, judged, rejected, stk, hd>>
 
 Init ==
   /\ l = 1 /\ cur = [budget |-> -1, movetime |-> -1, stop_us |-> -1, clock |-> -1] /\ aborted = FALSE /\ widx = 0
-  /\ ref = <<>> /\ refOf = -1 /\ judged = 0 /\ rejected = FALSE
+  /\ ref = <<>> /\ refOf = -1 /\ judged = 0 /\ rejected = FALSE /\ stk = <<>> /\ hd = 0
   /\ Stateless
 
 Next ==
-  /\ Mode = "C13" /\ ~rejected
-  /\ \/ (l <= N /\ (TSearch \/ TWrite \/ TAbort \/ TEnd))
+  /\ Mode \in {"C13", "STEP"} /\ ~rejected
+  /\ \/ (l <= N /\ Mode = "C13" /\ (TSearch \/ TWrite \/ TAbort \/ TEnd))
+     \/ (l <= N /\ Mode = "STEP" /\ (STree \/ SDown \/ SUp \/ SEnd))
      \/ TDone
 
 Spec == Init /\ [][Next]_svars
